@@ -153,6 +153,7 @@ pub fn check_li(r: &mut Recorder, input: &[u8], exp: &Value) {
 
 /// value-level obligations on any Locale the library hands out (C04/C05/C17), independent of zone
 pub fn check_loc_value(r: &mut Recorder, input: &[u8], l: &Locale, tag: &str) {
+    r.pool_add(l);
     let ser = l.to_string();
     match guard(|| Locale::from_bytes(ser.as_bytes())) {
         Ok(Ok(l2)) => {
@@ -678,6 +679,8 @@ pub fn check_cmp(r: &mut Recorder, c: &Value) {
             return;
         }
     };
+    r.pool_add(&la);
+    r.pool_add(&lb);
     let exp_eq = c["eq"].as_bool().unwrap_or(false);
     let sa = la.to_string();
     let sb = lb.to_string();
@@ -722,6 +725,83 @@ pub fn check_cmp(r: &mut Recorder, c: &Value) {
     // locale order must extend... only required: equal ids => order decided by extensions, total
     if la.id != lb.id && ord != lio {
         r.dis(&["C12"], "locale-order-not-by-id-first", detail());
+    }
+}
+
+/// Strict-total-order axioms of the type's own `Ord`, across every pair of a set of values with distinct texts (C12):
+/// sort with `cmp`, then in the sorted sequence no later element may compare Less than (or Equal to) an earlier one, `==`
+/// must be false, `partial_cmp` must agree and the reverse comparison must be the mirror image.  A comparator that is not
+/// transitive, not antisymmetric or not consistent with equality cannot pass on a set that contains a witness.
+fn order_axioms<T: Ord + Clone + PartialEq>(r: &mut Recorder, name: &str, items: &[(String, T)]) {
+    let mut idx: Vec<usize> = (0..items.len()).collect();
+    let sorted = guard(|| {
+        idx.sort_by(|&a, &b| items[a].1.cmp(&items[b].1));
+        idx
+    });
+    let idx = match sorted {
+        Ok(i) => i,
+        Err(at) => {
+            // since Rust 1.81 the standard sort may detect an inconsistent comparator and panic
+            r.dis(&["C12"], &format!("{}-order-not-total-sort-panicked", name), json!({"panic": at, "values": items.len()}));
+            return;
+        }
+    };
+    r.stat_n(&format!("order_pool_{}", name), items.len() as u64);
+    let mut reported = 0;
+    for i in 0..idx.len() {
+        for j in (i + 1)..idx.len() {
+            let (ta, a) = &items[idx[i]];
+            let (tb, bb) = &items[idx[j]];
+            let o = a.cmp(bb);
+            let rev = bb.cmp(a);
+            let bad = if o != std::cmp::Ordering::Less { Some("later-element-not-greater") }
+                      else if rev != std::cmp::Ordering::Greater { Some("not-antisymmetric") }
+                      else if a == bb { Some("eq-although-texts-differ") }
+                      else if a.partial_cmp(bb) != Some(o) { Some("partial_cmp-differs") }
+                      else { None };
+            if let Some(what) = bad {
+                r.dis(&["C12"], &format!("{}-order-axiom-{}", name, what),
+                      json!({"a": ta, "b": tb, "cmp_ab": ord_name(o), "cmp_ba": ord_name(rev), "eq": a == bb,
+                             "note": "a precedes b after sorting the pool with the type's own cmp", "pool": items.len()}));
+                reported += 1;
+                if reported > 5 { return; }
+            }
+        }
+    }
+}
+
+/// the order axioms over every value this run reached (Locale and each of its public ordered parts)
+pub fn check_order_pool(r: &mut Recorder) {
+    let pool = std::mem::take(&mut r.pool);
+    if pool.len() < 2 {
+        return;
+    }
+    fn distinct<T: Clone>(xs: Vec<(String, T)>) -> Vec<(String, T)> {
+        let mut seen = std::collections::HashSet::new();
+        xs.into_iter().filter(|(t, _)| seen.insert(t.clone())).collect()
+    }
+    order_axioms(r, "Locale", &distinct(pool.iter().map(|l| (l.to_string(), l.clone())).collect()));
+    order_axioms(r, "LanguageIdentifier", &distinct(pool.iter().map(|l| (l.id.to_string(), l.id.clone())).collect()));
+    order_axioms(r, "ExtensionsMap", &distinct(pool.iter().map(|l| (l.extensions.to_string(), l.extensions.clone())).collect()));
+    order_axioms(r, "UnicodeExtensionList", &distinct(pool.iter().map(|l| (l.extensions.unicode.to_string(), l.extensions.unicode.clone())).collect()));
+    order_axioms(r, "TransformExtensionList", &distinct(pool.iter().map(|l| (l.extensions.transform.to_string(), l.extensions.transform.clone())).collect()));
+    order_axioms(r, "PrivateExtensionList", &distinct(pool.iter().map(|l| (l.extensions.private.to_string(), l.extensions.private.clone())).collect()));
+    order_axioms(r, "Language", &distinct(pool.iter().map(|l| (l.id.language.to_string(), l.id.language)).collect()));
+    // field-by-field with an absent subtag first: the language identifiers, sorted by the library, are sorted by the model order too
+    let mut ids: Vec<LanguageIdentifier> = pool.iter().map(|l| l.id.clone()).collect();
+    ids.sort();
+    ids.dedup();
+    let key = |x: &LanguageIdentifier| -> (Vec<u8>, Vec<u8>, Vec<u8>, Vec<Vec<u8>>) {
+        (if x.language.is_empty() { vec![] } else { x.language.as_str().as_bytes().to_vec() },
+         x.script.map(|s| s.as_str().as_bytes().to_vec()).unwrap_or_default(),
+         x.region.map(|s| s.as_str().as_bytes().to_vec()).unwrap_or_default(),
+         x.variants().map(|v| v.as_str().as_bytes().to_vec()).collect())
+    };
+    for w in ids.windows(2) {
+        if key(&w[0]) >= key(&w[1]) {
+            r.dis(&["C12"], "langid-pool-order-not-field-by-field", json!({"a": w[0].to_string(), "b": w[1].to_string()}));
+            break;
+        }
     }
 }
 
